@@ -55,6 +55,7 @@ struct Run
   int parent_mode = 0;
   int probes = 0;
   int scrub = 1;
+  int slowlog = 0;
   std::vector<TaskSpec> tasks;
   std::map<std::pair<int, int>, std::vector<Script>> scripts;
 };
@@ -190,6 +191,7 @@ void log_sink(char level, const std::string& msg)
 {
   rec(std::string("log lvl=") + level + " msg=" + sanitize(msg));
   sim_yield(YK_LOG);
+  for (int i = 0; i < g_run.slowlog; ++i) sim_yield(YK_LOG);  // fault kind: slow log sink
 }
 
 // ============================================================================= component hook
@@ -673,6 +675,7 @@ static bool parse_run(const std::vector<std::string>& lines, Run& R)
     else if (kw == "PARENT") is >> R.parent_mode;
     else if (kw == "PROBES") is >> R.probes;
     else if (kw == "SCRUB") is >> R.scrub;
+    else if (kw == "SLOWLOG") is >> R.slowlog;
     else if (kw == "TASK")
     {
       TaskSpec t;
